@@ -1,7 +1,10 @@
 import RisorModel.Util
 import RisorModel.C04.Model
+import RisorModel.C04.FragCertOracle
 /-! Line-protocol front end of the C04 model.
-  `stack <main|fn> <instruction text>` → `accept <max height> <n reachable>` | `reject <offset: reason>` | `error <decode problem>` -/
+  `stack <main|fn> <instruction text>` → `accept <max height> <n reachable>` | `reject <offset: reason>` | `error <decode problem>`
+  `cert <main|fn> <instruction text>` → the accepted certificate itself (heights per slot)
+  `fragcert <sexp> <globals> <instruction text>` → see FragCertOracle.lean (the certificate of the proved fragment on real bytecode) -/
 namespace Risor.C04
 
 def handle : List String → String
@@ -28,6 +31,7 @@ def handle : List String → String
         if check c cert then
           "accept\t" ++ ",".intercalate (cert.toList.map fun x => match x with | some h => toString h | none => "-")
         else "reject\tcertificate refused by the verified checker"
+  | "fragcert" :: rest => handleFragCert rest
   | _ => "error\tunknown-request"
 
 end Risor.C04
